@@ -1,0 +1,19 @@
+//go:build verif
+
+// Contracts for govc (comment-only file; see /verif/DESIGN.md section 3).
+// Generated skeleton (tools/gen_zk_contracts.py): nil-safety of the verifier side for arbitrary decoded proofs.
+package zknth
+
+//@ func (*Proof).IsValid
+//@   nopanic[C05]
+//@   inline
+//@   requires pkok(public.N) && public.R != nil
+
+//@ func (*Proof).Verify
+//@   nopanic[C05]
+//@   requires hash != nil && hash.h != nil && pkok(public.N) && public.R != nil
+
+//@ func challenge
+//@   nopanic[C05]
+//@   inline
+//@   requires hash != nil && hash.h != nil && pkok(public.N) && public.R != nil
